@@ -221,6 +221,35 @@ def fingerprint(p):
                                    for o in ops))
 
 
+_SPY = {"registered": False, "seen": None}
+
+
+def spy_run(params):
+    """(tick, fingerprint) of every pipeline run_simulator(params) hands to its scheduler when no workload is passed"""
+    import eudoxia.simulator as sim
+    from eudoxia.scheduler.decorators import register_scheduler_init, register_scheduler, INIT_ALGOS, SCHEDULING_ALGOS
+    key = "verif-spy"
+    if not _SPY["registered"]:
+        INIT_ALGOS.pop(key, None)
+        SCHEDULING_ALGOS.pop(key, None)
+
+        @register_scheduler_init(key=key)
+        def init(s):
+            s.t = -1
+            _SPY["seen"] = []
+
+        @register_scheduler(key=key)
+        def algo(s, results, pipelines):
+            s.t += 1
+            for p in pipelines:
+                _SPY["seen"].append((s.t, fingerprint(p)))
+            return [], []
+        _SPY["registered"] = True
+    _SPY["seen"] = None
+    sim.run_simulator({**params, "scheduler_algo": key})
+    return _SPY["seen"]
+
+
 def run_roundtrip(params, out, P):
     import contextlib
     from eudoxia.simulator import parse_args_with_defaults
@@ -259,6 +288,13 @@ def run_roundtrip(params, out, P):
                 replayed.append((t, fingerprint(p)))
     out.extra_evals = len(direct)
     events = len({t for t, _ in direct})
+    # what `run` really simulates: run_simulator(params) with its built-in workload, seen by a scheduler that only watches
+    seen = spy_run(params)
+    if seen is not None and seen != direct:
+        k = next((i for i, (a, b) in enumerate(zip(seen, direct)) if a != b), min(len(seen), len(direct)))
+        P("C13:run-differs-from-generator", f"run_simulator(params) delivered {len(seen)} pipelines to its scheduler, the workload generator built from the same "
+          f"parameters produces {len(direct)}; first difference at #{k}: {seen[k][0] if k < len(seen) else None} vs tick {direct[k][0] if k < len(direct) else None}")
+        return events
     if [f for _, f in direct] != [f for _, f in replayed[:len(direct)]] or len(replayed) > len(direct):
         # a late final pipeline may be missing from the replay (known finding), anything else is a violation
         if len(replayed) < len(direct) and [f for _, f in direct[:len(replayed)]] == [f for _, f in replayed]:
